@@ -950,9 +950,11 @@ class Driver:
                     if s.get("dur_int"):
                         v = rng.choice([0, 1000000, 2000000])
                     elif grid:
-                        v = GRID * rng.choice([0, 1, 2, 3, 5, 8])
+                        v = GRID * rng.choice([0, 1, 2, 3, 5, 8, -1])
                     else:
-                        v = rng.choice([0, period // 2, period, period * 3, rng.randrange(1, 10 * period)])
+                        v = rng.choice([0, period // 2, period, period * 3, rng.randrange(1, 10 * period), -period, -1])
+                    if v < 0:
+                        self.ev("negative-duration-written")       # a dashboard user can type anything
                     pre.append(["nt", nm, v])
                 for op in pre:
                     if not do(op):
@@ -1328,7 +1330,7 @@ class AutoDriver:
                 if timed and rng.random() < 0.02:
                     nm = rng.choice(timed)
                     s = self.eff[nm]
-                    v = rng.choice([0, 1000000]) if s.get("dur_int") else (GRID * rng.choice([0, 1, 3]) if grid else rng.choice([0, period, 3 * period]))
+                    v = rng.choice([0, 1000000]) if s.get("dur_int") else (GRID * rng.choice([0, 1, 3, -1]) if grid else rng.choice([0, period, 3 * period, -period, -1]))
                     if not do(["nt", nm, v]):
                         return ops
                 r = rng.random()
